@@ -158,6 +158,27 @@ func (ex *Exec) callValue(st *State, fr *Frame, c *ssa.CallCommon, fnv Value, ar
 	}
 	switch f := fnv.(type) {
 	case FuncV:
+		// typed contents of sync.Map fields ('syncmap f: p(k, v)' in the type block of the struct)
+		if full := f.Fn.String(); strings.HasPrefix(full, "(*sync.Map).") && len(c.Args) > 0 && ex.pure == nil {
+			if ci := ex.syncMapInvOf(c.Args[0]); ci != nil {
+				m := strings.TrimPrefix(full, "(*sync.Map).")
+				if (m == "Store" || m == "LoadOrStore") && len(args) == 3 {
+					ex.emit(st, "pre", ex.srcLabel(fr.Fn, pos, "syncmap-store"), ex.syncMapFact(st, fr, ci, args[1], args[2]), pos, mergeProps(ex.topProps(st), ci.Props))
+				}
+				pushed := ex.callStatic(st, fr, f.Fn, args, dst, pos, inDefer, work)
+				if !pushed && dst != nil && (m == "Load" || m == "LoadOrStore" || m == "LoadAndDelete") {
+					if tv, ok := fr.Regs[dst].(TupleV); ok && len(tv.V) == 2 {
+						fact := ex.syncMapFact(st, fr, ci, args[1], tv.V[0])
+						if m == "LoadOrStore" {
+							st.assume(fact) // the loaded entry, or the one just stored (checked above)
+						} else if okv, isS := tv.V[1].(Scalar); isS {
+							st.assume(Implies(okv.T, fact))
+						}
+					}
+				}
+				return pushed
+			}
+		}
 		return ex.callStatic(st, fr, f.Fn, args, dst, pos, inDefer, work)
 	case *ClosureV:
 		return ex.callStatic(st, fr, f.Fn, args, dst, pos, inDefer, work, f.Bind...)
